@@ -49,7 +49,7 @@ def schedule(draw, tier="quick"):
         elif k in ("task", "task_race"):
             op["k"] = draw(st.integers(0, 3))
             if k == "task_race":
-                op["race"] = draw(st.lists(st.sampled_from(["fill", "fill_part", "snap+process", "process", "lapse"]), min_size=1, max_size=3))
+                op["race"] = draw(st.lists(st.sampled_from(["fill", "fill_part", "snap+process", "snap+process", "process", "lapse", "request"]), min_size=1, max_size=3))
                 op["o"] = draw(st.integers(0, 5))
         elif k == "process":
             op["n"] = draw(st.integers(1, 3))
@@ -76,6 +76,7 @@ class Driver:
         self.classes = set()
         self.nontrivial = False
         self.adopted_checked = False
+        self.accepted_during_flight = []  # requests accepted on an order while an API call for it was in flight
         self.start()
 
     def start(self, feed=True, defer=False):
@@ -182,9 +183,23 @@ class Driver:
                 if k == "task_race":
                     race = op["race"]
 
+                    pk_orders = list(lab.pool.queue[op.get("k", 0) % len(lab.pool.queue)][1][0]._orders)
+
                     def hook(l, race=race, o=op["o"]):
                         for r in race:
                             b = self.bet_of(o)
+                            if r == "request":
+                                # the strategy asks to cancel the very orders whose API call is in flight right now
+                                m_ = lab.market(0)
+                                for x in pk_orders:
+                                    before = x.status.name if x.status else None
+                                    try:
+                                        ok = m_.cancel_order(x)
+                                    except FlumineException:
+                                        ok = False
+                                    if ok:
+                                        self.accepted_during_flight.append((before, x.bet_id, self.c["async"]))
+                                continue
                             if r == "fill" and b:
                                 self.exchange.fill(b.bet_id)
                             elif r == "fill_part" and b:
